@@ -257,3 +257,27 @@ func ExtOrder(exts []TLSExt) string {
 	}
 	return s
 }
+
+// BuildClientHello serialises a ClientHello (with the given extension list) into one handshake
+// record with consistent length fields.
+func BuildClientHello(ch *ClientHelloInfo, exts []TLSExt) []byte {
+	var extb []byte
+	for _, e := range exts {
+		extb = append(extb, byte(e.Type>>8), byte(e.Type), byte(len(e.Data)>>8), byte(len(e.Data)))
+		extb = append(extb, e.Data...)
+	}
+	body := []byte{byte(ch.LegacyVersion >> 8), byte(ch.LegacyVersion)}
+	body = append(body, ch.Random...)
+	body = append(body, byte(len(ch.SessionID)))
+	body = append(body, ch.SessionID...)
+	body = append(body, byte(len(ch.CipherSuites)*2>>8), byte(len(ch.CipherSuites)*2))
+	for _, c := range ch.CipherSuites {
+		body = append(body, byte(c>>8), byte(c))
+	}
+	body = append(body, byte(len(ch.Compression)))
+	body = append(body, ch.Compression...)
+	body = append(body, byte(len(extb)>>8), byte(len(extb)))
+	body = append(body, extb...)
+	hs := append([]byte{1, byte(len(body) >> 16), byte(len(body) >> 8), byte(len(body))}, body...)
+	return append([]byte{0x16, 0x03, 0x01, byte(len(hs) >> 8), byte(len(hs))}, hs...)
+}
